@@ -14,7 +14,7 @@ import (
 var verifCancelQueries = []string{
 	`foo`,
 	`sum by (a) (foo)`,
-	`rate(foo[2m])`,
+	`max_over_time(foo[2m])`,
 	`foo + on(a) bar`,
 	`topk(1, foo)`,
 	`-foo`,
@@ -27,7 +27,15 @@ var verifCancelQueries = []string{
 // result — never a successful partial one —, nothing deadlocks, and after the query is
 // closed no goroutine is left behind; queriers are closed.
 func VerifH14p() {
-	qs := verifCancelQueries[sym.Choice("query", len(verifCancelQueries))]
+	qi := sym.Choice("query", len(verifCancelQueries))
+	qs := verifCancelQueries[qi]
+	// how the query is cancelled: 0 = the context given to Exec is cancelled; 1 = Cancel()
+	// is called on the query (as from another goroutine) and the storage then blocks until
+	// its context is cancelled. quick: one way per query shape, thorough: both.
+	cancelBy := qi % 2
+	if sym.Tier(0, 1) == 1 {
+		cancelBy = sym.Choice("cancelBy", 2)
+	}
 	start := sym.Int64("start", 0, verifR)
 	step := sym.Int64("step", 2, verifR)
 	mk := func() []*stub.Series {
@@ -44,8 +52,8 @@ func VerifH14p() {
 	}
 	sym.SetGOMAXPROCS(2 * sym.IntRange("shards", 1, 2))
 	e := verifEngine(logicalplan.DefaultOptimizers, 300000)
+	var q promql.Query
 	run := func(store *stub.Queryable, ctx context.Context) *promql.Result {
-		var q promql.Query
 		var err error
 		if rangeQ {
 			q, err = e.NewRangeQuery(store, nil, qs, sym.TimeMs(start), sym.TimeMs(end), sym.DurMs(step))
@@ -69,7 +77,12 @@ func VerifH14p() {
 	store.OnCallback = func(site string) {
 		if !cancelled && sym.Fault("cancel@"+site) {
 			cancelled = true
-			cancel()
+			if cancelBy == 0 {
+				cancel()
+			} else {
+				q.Cancel()
+				<-store.LastCtx.Done() // blocks for ever if Cancel() does not reach the storage's context
+			}
 		}
 	}
 	res := run(store, ctx)
